@@ -23,7 +23,7 @@ func Program(t *rapid.T, maxDepth int) string {
 		decls = append(decls, g.decl())
 	}
 	sb := &strings.Builder{}
-	fmt.Fprintf(sb, "package %s\n\n", rapid.SampledFrom([]string{"p", "main", "foo"}).Draw(t, "pkgname"))
+	fmt.Fprintf(sb, "package %s\n\n", rapid.SampledFrom([]string{"p", "main", "foo", "fmt", "os", "strings", "big", "utf8"}).Draw(t, "pkgname")) // (a package may carry the name of one it imports: package context importing "context")
 	// imports: exactly the packages the body refers to (a file that does not use
 	// an import does not compile, and the DSL only imports what is referenced)
 	// (a production may draw a qualified name and then discard the text, so the final text decides)
